@@ -181,6 +181,17 @@ func main() {
 	defer os.RemoveAll(tmp)
 	ts := time.Now()
 	ex.solveAll(sel, tmp, timeoutS, thorough, *workers)
+	// second chance for undecided obligations (machine load must not turn into an alarm): one retry with
+	// a three times longer limit; an obligation refuted with a model (sat) is not retried
+	var retry []*Obligation
+	for _, o := range sel {
+		if !o.Cover && (o.Result.Status == "unknown" || o.Result.Status == "timeout" || o.Result.Status == "error") {
+			retry = append(retry, o)
+		}
+	}
+	if len(retry) > 0 && len(retry) <= 40 {
+		ex.solveAll(retry, tmp, timeoutS*3, thorough, *workers)
+	}
 	solveWall := time.Since(ts).Seconds()
 
 	known := loadKnown(filepath.Join(*verifDir, "known_findings.json"))
